@@ -165,6 +165,89 @@ def equal (h : Heap) : Nat → Ref → Ref → Bool
     | .t, .t => true
     | _, _ => false
 
+/-! ### the list helpers of `src/lists.rs` on heap objects -/
+
+/-- `lists::length`: the number of elements along the cdr chain (a dotted tail is not counted) -/
+def length (h : Heap) (r : Ref) : Nat := (h.elems r).length
+
+/-- `lists::nthcdr`: `n` cdr steps, stopping at nil; the cdr of an atom is an error -/
+def nthcdr (h : Heap) : Nat → Ref → Except AErr Ref
+  | 0, r => .ok r
+  | n + 1, r =>
+    match h.get r with
+    | .nil => .ok r
+    | .cons _ d => nthcdr h n d
+    | _ => .error .typeMismatch
+
+/-- `lists::nth`: the car of the n-th cdr (nil-tolerant: a fresh nil past the end) -/
+def nth (h : Heap) (n : Int) (r : Ref) : Except AErr (Ref × Heap) :=
+  match h.nthcdr n.toNat r with
+  | .ok x => h.car x
+  | .error e => .error e
+
+/-- `lists::last` -/
+def last (h : Heap) (r : Ref) (n : Option Int) : Except AErr Ref :=
+  match h.get r with
+  | .nil => .ok r
+  | .cons .. =>
+    let len : Int := h.length r
+    match n with
+    | some k =>
+      if k < 0 then .error .outOfRange
+      else if k < len then h.nthcdr (len - k).toNat r
+      else .ok r
+    | none => h.nthcdr (len - 1).toNat r
+  | _ => .error .typeMismatch
+
+/-- `lists::assoc` with the default test (`equal`): the first element that is a pair whose car is
+    `equal` to the key; elements that are not pairs are skipped; nil (a fresh one) if there is none -/
+def assoc (h : Heap) (key r : Ref) : Except AErr (Ref × Heap) :=
+  match h.get r with
+  | .nil | .cons .. =>
+    let found := (h.elems r).find? fun item =>
+      match h.get item with
+      | .cons a _ => h.equal (h.cells.size + 2) a key
+      | _ => false
+    match found with
+    | some item => .ok (item, h)
+    | none => .ok (h.alloc .nil)
+  | _ => .error .typeMismatch
+
+/-- `lists::alist_get` with the default test: the cdr of the association found, else the default
+    (nil when none is given) -/
+def alistGet (h : Heap) (key r : Ref) (dflt : Option Ref) : Except AErr (Ref × Heap) :=
+  match h.assoc key r with
+  | .error e => .error e
+  | .ok (x, h1) =>
+    match h1.get x with
+    | .cons _ d => .ok (d, h1)
+    | _ =>
+      match dflt with
+      | some d => .ok (d, h1)
+      | none => .ok (h1.alloc .nil)
+
+/-- `lists::alist_from`: the pairs `(k . v)` pushed onto an empty list, in order -/
+def alistFrom (h : Heap) (kvs : List (Ref × Ref)) : Except AErr (Ref × Heap) :=
+  let (l, h0) := h.alloc .nil
+  let r := kvs.foldl (fun (acc : Except AErr Heap) kv =>
+    match acc with
+    | .ok hh => let (p, h1) := hh.alloc (.cons kv.1 kv.2); h1.push l p
+    | .error e => .error e) (.ok h0)
+  match r with
+  | .ok hh => .ok (l, hh)
+  | .error e => .error e
+
+/-- `lists::plist_from`: keys and values pushed alternately -/
+def plistFrom (h : Heap) (kvs : List (Ref × Ref)) : Except AErr (Ref × Heap) :=
+  let (l, h0) := h.alloc .nil
+  let r := kvs.foldl (fun (acc : Except AErr Heap) kv =>
+    match acc with
+    | .ok hh => (match hh.push l kv.1 with | .ok h1 => h1.push l kv.2 | .error e => .error e)
+    | .error e => .error e) (.ok h0)
+  match r with
+  | .ok hh => .ok (l, hh)
+  | .error e => .error e
+
 end Heap
 
 /-- binding stacks of the symbol API (`set`, `set_scope`, `unset`, `get`, `boundp`): references -/
